@@ -98,13 +98,24 @@ def check(ctx, lib, c):
     expect(all(w < F.Q for w in conv.raws(out)), sig + "/noncanonical", "non-reduced word in the pairing value")
     expect(got == exp, sig + ("/identity" if ident else "/value"), lambda: "a=%x b=%x repP=%s repQ=%s: e(P,Q) != GT^(ab)" % (a, b, c["repP"], c["repQ"]))
     expect((got == F.P_ONE) == ident, sig + "/degenerate", lambda: "a=%x b=%x" % (a, b))
+    # a related second pairing through the same route directly afterwards: (P', -Q) - the second argument shares its x coordinate with
+    # the one just used. The pairing is a function of its arguments; coefficients remembered from the previous call must not leak in.
+    if not ident and (a ^ b) % 3 == 0:
+        a2 = (a * 7 + 3) % R or 1
+        P2 = C.gen_mul(1, a2)
+        nQ = C.neg(Qp, C.G2Ops)
+        PA2 = lib_affine(lib, 1, P2, c["repP"], c["zP"], j1)
+        QA2 = lib_affine(lib, 2, nQ, c["repQ"], zQ, j2)
+        got2 = F.tower_to_flat(conv.b_fq12(lib_pairing(lib, PA2, QA2, c["route"])))
+        expect(got2 == PR.gt_pow_gen((-a2 * b) % R), sig + "/after-related-call", lambda: "e(P,Q) with a=%x b=%x, then e(P',-Q) with a'=%x: wrong value" % (a, b, a2))
+        ctx.event("related-second-pairing")
     if c["full"] and not ident:
         ctx.event("full-reference-pairing")
         ref = PR.pairing(P, Qp)
         expect(ref == exp, "harness/reference-bilinearity", "reference pairing disagrees with its own bilinearity")
         expect(got == ref, sig + "/value-direct", lambda: "a=%x b=%x differs from the reference Miller loop + final exponentiation" % (a, b))
     # order r through the library's own generic exponentiation (not the GT fast path)
-    if ctx.evaluations % 16 == 0:
+    if (a + 3 * b) % 16 == 0:      # (a function of the case, so that a replay does the same)
         rv, o2 = lib.call("vf_fq12_exp", 576, 256, "O", out, conv.bi(R, 256))
         expect(conv.b_fq12(o2) == F.FQ12_ONE, sig + "/order", lambda: "e^r != 1 for a=%x b=%x" % (a, b))
 
